@@ -334,7 +334,10 @@ type Real struct {
 	// Keep makes the wrapper hold on to every element Next returned (a host that keeps a transcript) together
 	// with a description taken at the time; Recheck compares them later.
 	Keep bool
-	kept []keptElement
+	// Scribble makes the wrapper (as the host) overwrite the tags of every element it is handed, after it has
+	// copied what it needs: the element is the host's value, and what the host does to it stays with it.
+	Scribble bool
+	kept     []keptElement
 }
 
 type keptElement struct {
@@ -355,6 +358,21 @@ func describeElement(el *ysgo.DialogueElement) string {
 		}
 	}
 	return b.String()
+}
+
+func scribbleTags(el *ysgo.DialogueElement) {
+	if el.Line != nil {
+		for i := range el.Line.Tags {
+			el.Line.Tags[i] = "scribbled-by-the-host"
+		}
+	}
+	for _, op := range el.Options {
+		if op.Line != nil {
+			for i := range op.Line.Tags {
+				op.Line.Tags[i] = "scribbled-by-the-host"
+			}
+		}
+	}
 }
 
 // Recheck compares every kept element with what it was when it was returned. "" when nothing changed.
@@ -446,9 +464,17 @@ func (r *Real) Once(choice int) (o Obs) {
 		}
 	}()
 	el, err := r.DR.Next(choice)
-	if r.Keep && el != nil && err == nil && len(r.kept) < 400 {
-		r.kept = append(r.kept, keptElement{el, describeElement(el)})
-	}
+	defer func() {
+		// runs after the observation below was built (from copies): the element is the host's value now
+		if r.Keep && el != nil && err == nil {
+			if r.Scribble {
+				scribbleTags(el)
+			}
+			if len(r.kept) < 400 {
+				r.kept = append(r.kept, keptElement{el, describeElement(el)})
+			}
+		}
+	}()
 	switch {
 	case err != nil && errors.Is(err, ysgo.ErrWaitingForCommandCompletion):
 		return Obs{Kind: KWaiting, Err: err}
@@ -457,13 +483,13 @@ func (r *Real) Once(choice int) (o Obs) {
 	case el == nil:
 		return Obs{Kind: KEnd}
 	case el.Line != nil:
-		return Obs{Kind: KLine, Node: el.Node, Text: el.Line.Text, Tags: el.Line.Tags, Attrs: el.Line.Attributes}
+		return Obs{Kind: KLine, Node: el.Node, Text: el.Line.Text, Tags: append([]string(nil), el.Line.Tags...), Attrs: el.Line.Attributes}
 	default:
 		o := Obs{Kind: KOptions, Node: el.Node}
 		for _, op := range el.Options {
 			x := ObsOpt{Disabled: op.Disabled}
 			if op.Line != nil {
-				x.Text, x.Tags, x.Attrs = op.Line.Text, op.Line.Tags, op.Line.Attributes
+				x.Text, x.Tags, x.Attrs = op.Line.Text, append([]string(nil), op.Line.Tags...), op.Line.Attributes
 			}
 			o.Opts = append(o.Opts, x)
 		}
